@@ -3,7 +3,7 @@ operands (before and after) and the result of every step as plain tables of inte
 import torch
 import torchphysics as tp
 from torchphysics.problem.spaces import Points, Space
-from .common import main, watched
+from .common import main, watched, pick
 
 NONE = -99
 
@@ -89,6 +89,20 @@ def run_one(s):
             e["back"] = {n: [[int(round(v)) for v in row] for row in back[n].tolist()] for n in back}
         else:
             e["exc"] = r[1] if len(r) > 1 else "hang"
+        if len(names) >= 2:
+            # coordinates of DIFFERENT dtypes, the smaller one first (an integer label column / float32 in front of float64
+            # columns with a fractional part eps): every cell keeps its value (floor part and eps part are logged apart)
+            kind = "int" if pick(s["tid"] + k, 2) == 0 else "f32"
+            eps, dt = (0.25, torch.int64) if kind == "int" else (2.0 ** -20, torch.float32)
+            d = {n: (co[n].clone().to(dt) if i == 0 else co[n].clone() + eps) for i, n in enumerate(names)}
+            r2 = watched(lambda: Points.from_coordinates(d))
+            if r2[0] == "ok":
+                t2 = r2[1].as_tensor.detach().double()
+                fl = torch.floor(t2)
+                e["mixed"] = {"kind": kind, "exc": "", "c": [[_cell(v) for v in row] for row in fl.tolist()],
+                              "frac": [[int(round(v / eps)) for v in row] for row in (t2 - fl).tolist()]}
+            else:
+                e["mixed"] = {"kind": kind, "exc": r2[1] if len(r2) > 1 else "hang"}
         ev.append(e)
     # equality is sensitive to variable order: same cells, variables relabelled in another order
     for p in list(heap):
